@@ -84,7 +84,7 @@ case('instructor', dict(variables=['x', 'c'], instructor_vars=['c']), ['2*x + c 
      ['x+x'], '2*x + c - c')
 case('undefined', dict(), ['2*x + zz - zz', '2*x + 0*X', "2*x + 0*x'", '2*x + 0*x_1', '2*x + 0*a_{1}', '2*x + 0*Pi', '2*x + 0*E', '2*x + 0*I', '2*x + 0*f(x)', '2*x + 0*SIN(x)',
                            '2*x + 0*sin'], ['x+x', '2*x + 0*pi', '2*x + 0*e'])
-case('numbered', dict(numbered_vars=['a']), ['2*x + 0*a_{1.5}', '2*x + 0*a_{01}', '2*x + 0*b_{1}', '2*x + 0*a_{x}', '2*x + 0*A_{1}'], ['2*x + 0*a_{1}', '2*x + 0*a_{-12}'])
+case('numbered', dict(numbered_vars=['a']), ['2*x + 0*a_{1.5}', '2*x + 0*a_{01}', '2*x + 0*b_{1}', '2*x + 0*a_{x}', '2*x + 0*A_{1}', "2*x + 0*a_{1}'", "2*x + a_{1} + a_{2}'' - a_{2}''", '2*x + 0*a_{3}^{2}', "2*x + 0*a_{3}^{2}'", '2*x + 0*a_{1}_{2}', '2*x + 0*aa_{1}', '2*x + 0*a_{1}1'], ['2*x + 0*a_{1}', '2*x + 0*a_{-12}'])
 case('suffix', dict(metric_suffixes=False), ['2*x + 0k', '2*x*1M^0', '2000m*x' if False else '2*x + 0m', '2*x + 0*1q'], ['2*x + 0%', '200%*x'])
 case('suffix-metric', dict(metric_suffixes=True), ['2*x + 0q', '2*x + 0K', '2*x + 0kk'], ['2*x + 0k', '2000m*x'])
 
